@@ -183,8 +183,10 @@ where
         };
 
         // Restore the variables shadowed by the closure parameters, also when the closure failed.
-        cleanup(ctx.state_mut(), key_ident, old_key);
+        // In reverse order of binding, so that two parameters with the same name (`|x, x|`)
+        // restore the variable they both shadow.
         cleanup(ctx.state_mut(), value_ident, old_value);
+        cleanup(ctx.state_mut(), key_ident, old_key);
 
         result
     }
@@ -216,8 +218,10 @@ where
         };
 
         // Restore the variables shadowed by the closure parameters, also when the closure failed.
-        cleanup(ctx.state_mut(), index_ident, old_index);
+        // In reverse order of binding, so that two parameters with the same name (`|x, x|`)
+        // restore the variable they both shadow.
         cleanup(ctx.state_mut(), value_ident, old_value);
+        cleanup(ctx.state_mut(), index_ident, old_index);
 
         result
     }
